@@ -58,23 +58,23 @@ type txDesc struct {
 }
 
 type chainHist struct {
-	run      *sim.Run
-	w        *sim.World
-	rng      *sim.Rng
-	caseID   int
-	seed     []byte // model of the rolling seed
-	reqs     uint64 // model of the request count
-	tries    int
-	expCnt   int64
-	rel      []int // per validator: chance (of 10) to report a request it was asked for
-	open     []*openReq
-	oplog    []string
-	failed   bool
-	txs      [][]byte
-	descs    []txDesc
-	sig      []string
-	jailed   []int
-	samples  []string
+	run     *sim.Run
+	w       *sim.World
+	rng     *sim.Rng
+	caseID  int
+	seed    []byte // model of the rolling seed
+	reqs    uint64 // model of the request count
+	tries   int
+	expCnt  int64
+	rel     []int // per validator: chance (of 10) to report a request it was asked for
+	open    []*openReq
+	oplog   []string
+	failed  bool
+	txs     [][]byte
+	descs   []txDesc
+	sig     []string
+	jailed  []int
+	samples []string
 }
 
 func (h *chainHist) log(s string, a ...any) {
